@@ -40,8 +40,10 @@ Order == IF AB_SortColumns
               IN  f[S]
          ELSE sc.stats
 
+(* as built: the precision list is checked before anything is written; whether every statistic is defined for the shape *)
+(* is only found out while the row is computed - after the header line (if asked for) has gone out                      *)
 Resolve == /\ phase = "read"
-           /\ IF PrecOk /\ AllAdmissible THEN phase' = "resolved" /\ exit' = exit
+           /\ IF PrecOk THEN phase' = "resolved" /\ exit' = exit
               ELSE phase' = "exit" /\ exit' = 1
            /\ UNCHANGED <<sc, lines>>
 
@@ -52,21 +54,25 @@ WriteHeader == /\ phase = "resolved"
 Cell(j) == LET v == SStat(Order[j], sc.sp) IN QFix(v.v, PrecOf(j))
 
 WriteRow == /\ phase = "header"
-            /\ lines' = Append(lines, Join([j \in 1..Len(Order) |-> Cell(j)], sc.delim))
-            /\ phase' = "exit" /\ exit' = 0 /\ UNCHANGED sc
+            /\ IF AllAdmissible
+               THEN lines' = Append(lines, Join([j \in 1..Len(Order) |-> Cell(j)], sc.delim)) /\ exit' = 0
+               ELSE lines' = lines /\ exit' = 1            \* no row, not even a partial one
+            /\ phase' = "exit" /\ UNCHANGED sc
 
 Next == Resolve \/ WriteHeader \/ WriteRow
 Spec == Init /\ [][Next]_vars
 
 (* what the statement demands of the finished process *)
 Expected ==
-    IF ~(PrecOk /\ AllAdmissible) THEN [exit |-> 1, lines |-> <<>>]
+    IF ~PrecOk THEN [exit |-> 1, lines |-> <<>>]
+    ELSE IF ~AllAdmissible
+    THEN [exit |-> 1, lines |-> (IF sc.header THEN <<Join([j \in 1..Len(sc.stats) |-> HeaderName(sc.stats[j])], sc.delim)>> ELSE <<>>)]
     ELSE [exit |-> 0,
           lines |-> (IF sc.header THEN <<Join([j \in 1..Len(sc.stats) |-> HeaderName(sc.stats[j])], sc.delim)>> ELSE <<>>)
                     \o <<Join([j \in 1..Len(sc.stats) |-> QFix(SStat(sc.stats[j], sc.sp).v, PrecOf(j))], sc.delim)>>]
 
 RowMatchesRequest == phase = "exit" => (exit = Expected.exit /\ lines = Expected.lines)
-NothingWrittenOnError == (phase = "exit" /\ exit = 1) => lines = <<>>
+NoRowOnError == (phase = "exit" /\ exit = 1) => Len(lines) <= (IF sc.header THEN 1 ELSE 0)
 
 Emit == phase = "exit" =>
     PrintT("REPLAY " \o ToJson([family |-> "stats", kind |-> "layout", shape |-> sc.sp.shape,
